@@ -285,7 +285,7 @@ pub fn check_case(case: &Case) -> (Vec<Violation>, CaseStats) {
 }
 
 /// Oracle M: live heap at quiescence points following a context line must not grow with input.
-pub fn memory_check(args: &[String], n: usize, seed: u64, long_lines: bool, many_files: bool) -> (Option<Violation>, serde_json::Value) {
+pub fn memory_check(args: &[String], n: usize, seed: u64, long_lines: bool, many_files: bool, wrap_shapes: bool) -> (Option<Violation>, serde_json::Value) {
     let config = match make_config(args) {
         Ok(c) => c,
         Err(e) => return (None, json!({"error": e})),
@@ -335,6 +335,17 @@ pub fn memory_check(args: &[String], n: usize, seed: u64, long_lines: bool, many
                         }
                         l.text = t;
                     }
+                    if wrap_shapes && matches!(l.kind, LineKind::Context | LineKind::Minus | LineKind::Plus) {
+                        // lines a little or a lot wider than the panels of the widths in use (60, 120,
+                        // 200, 400 columns, unified and side by side): every shape of wrapped row
+                        const LENS: &[usize] = &[28, 34, 57, 63, 70, 95, 103, 118, 150, 199, 210, 260, 395, 410];
+                        let want = LENS[(lines.len() * 7 + produced) % LENS.len()];
+                        let mut t = l.text.clone();
+                        while t.chars().count() < want {
+                            t.push_str(" wrap(me, 7);");
+                        }
+                        l.text = t.chars().take(want.max(l.text.chars().count())).collect();
+                    }
                     lines.push(l);
                 }
                 produced += 1;
@@ -369,13 +380,13 @@ pub fn memory_check(args: &[String], n: usize, seed: u64, long_lines: bool, many
     let (h4, l4, q4) = measure(4 * n);
     let growth = h4 - h1;
     let input_growth = (l4 - l1) as isize;
-    let info = json!({"args": args, "long_lines": long_lines, "many_files": many_files, "hunks_small": n, "hunks_large": 4 * n, "input_bytes_small": l1, "input_bytes_large": l4, "live_heap_small": h1, "live_heap_large": h4, "quiescence_points_large": q4});
+    let info = json!({"args": args, "long_lines": long_lines, "many_files": many_files, "wrap_shapes": wrap_shapes, "hunks_small": n, "hunks_large": 4 * n, "input_bytes_small": l1, "input_bytes_large": l4, "live_heap_small": h1, "live_heap_large": h4, "quiescence_points_large": q4});
     if growth > input_growth / 4 {
         return (
             Some(Violation::new(
                 "M-memory",
                 "M:heap-grows-with-input",
-                format!("live heap at a quiescence point after an unchanged line grew by {} bytes when the input grew by {} bytes ({} -> {} hunks; long lines: {}; one file per hunk: {}; args {:?})", growth, input_growth, n, 4 * n, long_lines, many_files, args),
+                format!("live heap at a quiescence point after an unchanged line grew by {} bytes when the input grew by {} bytes ({} -> {} hunks; long lines: {}; one file per hunk: {}; wrap shapes: {}; args {:?})", growth, input_growth, n, 4 * n, long_lines, many_files, wrap_shapes, args),
             )),
             info,
         );
